@@ -14,7 +14,7 @@ import (
 func init() {
 	eng.Register(&eng.Check{
 		ID:          "C08",
-		Rule:        "E1 two-run non-interference: a struct with a renamed field (bexpr:\"v\" json:\"jv\"), fields hidden under each tag name (bexpr:\"-\", json:\"-\", pointer:\"-\"), an unexported field and a rename-colliding field (tag = Go name of a hidden field), placed at top level / behind a pointer / as map value / slice element / [1]S and *[2]S array element / nested struct field / []*S element; EVERY assignment of a 3-value hidden-content alphabet (the literal used by the expressions, the zero value nil, a map holding it) to the 4 hideable fields (81 data per nesting), in two variants (visible fields non-zero / all visible fields zero); data are grouped by their projection on the fields visible under the configuration (tag name in {bexpr, json, \"\"} x unknown value {none, \"secret\"}); oracle: (a) every expression (hidden field by Go name, tag name, JSON pointer, through quantifiers, in / is empty / matches / == on the field, on the enclosing struct and on the container holding it) has ONE outcome per group; (b) agreement with the reference (a hidden field never resolves to its content; renamed field only under its tag name); (c) Filter.Execute over the members of one group keeps all or none. Distinct by construction; non-trivial = group with >=2 members differing in hidden contents.",
+		Rule:        "E1 two-run non-interference: a struct with a renamed field (bexpr:\"v\" json:\"jv\"), fields hidden under each tag name (bexpr:\"-\", json:\"-\", pointer:\"-\"), an unexported field and a rename-colliding field (tag = Go name of a hidden field), placed at top level / behind a pointer / as map value / slice element / [1]S and *[2]S array element / nested struct field / embedded struct (also asked for by the promoted names) / []*S element; EVERY assignment of a 3-value hidden-content alphabet (the literal used by the expressions, the zero value nil, a map holding it) to the 4 hideable fields (81 data per nesting), in two variants (visible fields non-zero / all visible fields zero); data are grouped by their projection on the fields visible under the configuration (tag name in {bexpr, json, \"\"} x unknown value {none, \"secret\"}); oracle: (a) every expression (hidden field by Go name, tag name, JSON pointer, through quantifiers, in / is empty / matches / == on the field, on the enclosing struct and on the container holding it) has ONE outcome per group; (b) agreement with the reference (a hidden field never resolves to its content; renamed field only under its tag name); (c) Filter.Execute over the members of one group keeps all or none. Distinct by construction; non-trivial = group with >=2 members differing in hidden contents.",
 		Assumptions: []string{"reference interpreter as C01", "hidden-content alphabet of 3 values"},
 		Run:         runC08,
 	})
@@ -65,6 +65,10 @@ type c08Nest struct {
 	wrap   func(s *Node) *Node
 }
 
+// c08AlsoTop: nests for which the struct's field names are also asked for WITHOUT the prefix (Go promotes the fields of an
+// embedded struct; lookups must not)
+var c08AlsoTop = map[string]bool{"embedded-struct": true}
+
 func c08Nests() []c08Nest {
 	return []c08Nest{
 		{"top", nil, func(s *Node) *Node { return s }},
@@ -72,6 +76,12 @@ func c08Nests() []c08Nest {
 		{"map-value", []string{"m", "k"}, func(s *Node) *Node { return NMap(TStr, TAny, str("m"), NMap(TStr, s.T, str("k"), s)) }},
 		{"slice-elem", []string{"l", "0"}, func(s *Node) *Node { return NMap(TStr, TAny, str("l"), NSlice(s.T, s)) }},
 		{"nested-struct", []string{"N"}, func(s *Node) *Node { return NStruct(F{Name: "N", V: s}, F{Name: "x", Unexp: true, V: one}) }},
+		// embedded (anonymous) struct: reachable as a field called S; its fields - hidden ones too - are promoted by Go's FieldByName,
+		// which a lookup must not use; the outer struct has no tagged field of its own
+		{"embedded-struct", []string{"S"}, func(s *Node) *Node { return NStruct(F{Name: "S", Embedded: true, V: s}, F{Name: "Other", V: one}) }},
+		{"embedded-struct-behind-pointer-in-list", []string{"l", "0", "S"}, func(s *Node) *Node {
+			return NMap(TStr, TAny, str("l"), NSlice(TAny, NPtr(NStruct(F{Name: "S", Embedded: true, V: s}))))
+		}},
 		// fixed-size arrays: "zero-ness" of an array looks into every field of its elements, hidden ones included
 		{"array-elem", []string{"l", "0"}, func(s *Node) *Node { return NMap(TStr, TAny, str("l"), NArray(s.T, s)) }},
 		{"array2-elem-behind-pointer", []string{"l", "1"}, func(s *Node) *Node { return NMap(TStr, TAny, str("l"), NPtr(NArray(s.T, s, s))) }},
@@ -143,6 +153,9 @@ func runC08(c *eng.Ctx) {
 				ds = append(ds, datum{h, n, Build(n).Interface()})
 			}
 			es := c08Exprs(nest.prefix)
+			if c08AlsoTop[nest.name] {
+				es = append(es, c08Exprs(nil)...)
+			}
 			for ci, cfg := range cfgs {
 				hidden := c08HiddenSet(cfg.Tag)
 				group := func(d datum) string {
